@@ -94,6 +94,13 @@ func draw(t *rapid.T) Case {
 			o.Limit = int64(rapid.IntRange(1, 50).Draw(t, "lim"))
 		}
 	}
+	// mostly the encoder's own spelling; sometimes the other setting's spelling of <, >, & or free whitespace and escapes
+	switch gen.Uniform(t, 0, 7, "spelling") {
+	case 0:
+		return Case{Doc: doc.Text(!o.Esc), Patch: ref.OpsText(ops, !o.Esc), Opts: o}
+	case 1:
+		return Case{Doc: gen.Spell(t, doc, "sd"), Patch: gen.Spell(t, ref.OpsTree(ops), "sp"), Opts: o}
+	}
 	return Case{Doc: doc.Text(o.Esc), Patch: ref.OpsText(ops, o.Esc), Opts: o}
 }
 
@@ -110,10 +117,19 @@ func check(c Case) ev.Verdict {
 	if c.Opts.Indent != "" {
 		return ev.Excluded("indent not part of this unit")
 	}
-	if c.Opts.Limit > 0 && (doc.Text(c.Opts.Esc) != c.Doc || ref.OpsText(ops, c.Opts.Esc) != c.Patch) {
-		return ev.Excluded("copy limit with a spelling other than the encoder's own")
-	}
 	ro := c.Opts.Ref()
+	canonical := doc.Text(c.Opts.Esc) == c.Doc && ref.OpsText(ops, c.Opts.Esc) == c.Patch
+	if c.Opts.Limit > 0 && !canonical {
+		// sizes are defined on the output spelling: measure them in the outputs of the patch prefixes
+		sizes, why, err := lib.CopySizes(c.Doc, c.Patch, c.Opts, lib.Apply)
+		if why != "" {
+			return ev.Excluded(why)
+		}
+		if err != nil {
+			return ev.Verdict{Err: err}
+		}
+		ro.CopySizes = sizes
+	}
 	want := ref.Apply(doc, ops, ro)
 	got := lib.Apply(c.Doc, c.Patch, c.Opts)
 	if want.OutOfDomain() {
@@ -125,7 +141,7 @@ func check(c Case) ev.Verdict {
 	if got.DecodeErr != nil {
 		return ev.Fail("DecodePatch rejected a valid patch: %v", got.DecodeErr)
 	}
-	optc := fmt.Sprintf("allow=%v,ensure=%v,limit=%v", c.Opts.AllowMissing, c.Opts.Ensure, c.Opts.Limit > 0)
+	optc := fmt.Sprintf("allow=%v,ensure=%v,limit=%v,canonical-spelling=%v", c.Opts.AllowMissing, c.Opts.Ensure, c.Opts.Limit > 0, canonical)
 	if want.OK() {
 		v := ev.Verdict{Classes: []string{"all-succeed", optc}}
 		if got.Err != nil {
@@ -173,7 +189,7 @@ func check(c Case) ev.Verdict {
 	// operations after the first failing one have no effect on the outcome
 	if want.FailAt+1 < len(ops) {
 		v.Classes = append(v.Classes, "has-suffix")
-		tr := lib.Apply(c.Doc, ref.OpsText(ops[:want.FailAt+1], c.Opts.Esc), c.Opts)
+		tr := lib.Apply(c.Doc, lib.PrefixText(c.Patch, want.FailAt+1), c.Opts)
 		if tr.Panic != nil {
 			return ev.Verdict{Err: tr.Panic}
 		}
